@@ -48,7 +48,14 @@ extern "C" int LLVMFuzzerTestOneInput(const uint8_t * data, size_t size)
       if (e1 + e2 > bound * (1 + 1e-9) + 1e-12) violation("dbd_gA sampler returned e1+e2 above what the accepted data set allows");
       labels()["sampled"]++;
     }
-  } catch (Overrun &) { violation("dbd_gA sampler does not terminate (30000 deviates for 32 shots) on a data set it accepted"); }
+  } catch (Overrun &) {
+    // the inverse-transform sampler draws exactly two deviates per pair: running out of 30000 would be a loop.  The rejection sampler's
+    // efficiency is (mean p.d.f.)/(maximum x area) and can be arbitrarily small for a table the loader's own predicate accepts (a single
+    // non-zero node, a corrupted E_max of 200000 MeV with an end point of 3 MeV): slow is not "does not terminate", and a deviate budget
+    // cannot tell them apart - counted, not reported
+    if (cdf) violation("dbd_gA inverse-transform sampler does not terminate (30000 deviates for 32 pairs) on a data set it accepted");
+    labels()["pdf_rejection_too_slow_to_decide"]++;
+  }
   catch (std::exception &) { labels()["sample_exception"]++; }
   return 0;
 }
